@@ -11,7 +11,7 @@
    -i * R operators). *)
 From Coq Require Import List Arith Lia Bool.
 From GB Require Import Base.Field Base.FNum Base.Tables Model.Shell Model.MomentInt
-  Model.DiffOp Model.OneElec Model.Spherical Model.Assembly Model.Overlap.
+  Model.DiffOp Model.OneElec Model.TwoElec Model.Spherical Model.Assembly Model.Assembly14 Model.Overlap.
 Import ListNotations.
 
 Section OneBody.
@@ -69,6 +69,19 @@ Definition point_charge_integral (points : list (F * F * F * F)) (basis : list (
 Definition nuclear_attraction_integral (points : list (F * F * F * F)) (basis : list (shell F))
            (T : option (list (list F))) : list (list F) :=
   map (map (FNum.fsum K)) (point_charge_integral points basis T).
+
+(* electron_repulsion.py:206-273: four-index symmetric assembly (base_four_symm.py, model
+   Assembly14.four_symm), optional transform on all four indices, physicist = middle indices exchanged *)
+Definition eri_integral (basis : list (shell F)) (T : option (list (list F))) (physicist : bool)
+  : list (list (list (list F))) :=
+  let ps := map (prep K) basis in
+  let ss := map (fun p => mkSh (s_sph (p_shell p)) (p_T p) (p_norm p)) ps in
+  let d := dummy_p K in
+  let chem := four_symm K (f0 K) (fadd K) (fmul K) 2 ss (fun i j k l =>
+      eri_block K (p_shell (nth i ps d)) (p_shell (nth j ps d)) (p_shell (nth k ps d))
+                  (p_shell (nth l ps d))) in
+  let arr := match T with None => chem | Some t => lincomb4 K (f0 K) (fadd K) (fmul K) t chem end in
+  if physicist then swapax (f0 K) 1 2 arr else arr.
 
 (* the pinned tree's behaviour (plain transposition), kept for the record of the defect *)
 Definition momentum_integral_re_plain (basis : list (shell F)) (T : option (list (list F))) :=
